@@ -14,7 +14,7 @@ CLAIMED = {
          "TLC enumerates (operation x invalid-name class x store state); every edge is executed for several concrete names per class inside a sandbox tree (sibling store, decoys next to the base directory) whose complete before/after snapshot must be identical and whose result must be a failure/no-op.",
          "Names are class representatives (3-4 concrete strings per class), not all strings. Frontend leg and strace path invariant are separate parts of the check (see DESIGN 4/C03).",
          "4/C03"),
- "C10": ("TLC deadlock + liveness check of the Agent module in every upgrade mode; wrong-variant counterexample replayed on the real dispatcher with gates; trace validation of seeded loads",
+ "C10": ("TLC deadlock + liveness check of the Agent module in every upgrade mode; wrong-variant counterexample replayed on the real dispatcher with gates; trace validation of seeded loads; Listeners.tla (one goroutine per listener, process life cycle) exhaustively, wrong variant fail-fast refuted, its start-up environments replayed on the real binary",
          "TLC proves deadlock freedom and `every call returns` (under weak fairness of dispatcher, hooks consumer, upgrader) for the bounded Agent model in modes off/local/remote, and refutes the blocking self-send variant; that counterexample (update queue full + successful login of an upgradeable user) is converted into a gated scenario and executed on the real dispatcher at the real capacity, a watchdog plus goroutine dump decides wedged-or-not; seeded concurrent loads in all modes are recorded through the verif hooks and validated against TraceAgent.tla.",
          "Bounded model (3 clients, 1-2 calls each, channel capacity 2, 1 user). Liveness on the code is observed as completion within a watchdog, not proved. Go's select choice is not forced.",
          "4/C10"),
@@ -78,9 +78,9 @@ CLAIMED = {
          "TLC checks NoChangeForgotten, AtMostTwoRoundsPerInterval, RoundCarriesCurrentStore and the liveness property EveryChangeCovered on the discrete-time Hooks model (free choice among ready select arms); on the code, a HooksCaller with a 180 ms rate limit and logging hook scripts is driven through 0/1/2/many changes per interval, changes just before/after the timer, reloads, gated new-store/notification races and a hanging hook; the loop's verif events are validated per scenario against TraceHooks (pending counter, leading/trailing rounds, store carried by each round, every change covered at the end), real time between rounds i and i+2 is bounded from below, the scripts' own logs give argument and WHAWTY_AUTH_STORE; every HookFiles case (kind x mode x hidden x directory mode) is materialised; the dispatcher's notifications are validated against TraceAgent.",
          "Event order and lower time bounds only (no wall-clock closeness). The one-minute kill is exercised in the thorough tier.",
          "4/C19"),
- "C04": ("TLC enumeration of the Frontends case analysis (transport x user-name class x password class: name rule and limits); every case submitted to the running agent binary through all five transports against the library's verdict",
+ "C04": ("TLC enumeration of the Frontends case analysis (transport x user-name class x password class: name rule and limits); every case submitted to the running agent binary through all five transports against the library's verdict; Listeners.tla start-up environments (TLS listeners, second socket, listeners that cannot start) replayed on the binary",
          "TLC enumerates the credential-transformation rule and the limit class of every (transport, user class, password class); each case is instantiated with real bytes (':' in passwords, JSON escapes and non-BMP code points, '@' names, 0x01-0xff, 255/256/257-byte fields, near misses, padded/case-changed names, leading '-') and submitted to the real `whawty-auth run` process over the saslauthd socket, HTTP basic-auth, the JSON API, an LDAP simple bind (hand-built BER) and the CLI; the expected verdict is store.Dir.Authenticate on the same directory for the name the model prescribes; accept => store accepts always, accept <=> store accepts inside the limits.",
-         "TLS listeners and socket activation not exercised. The expected verdict comes from the library (judged by C01/C02).",
+         "systemd socket activation and LDAP StartTLS not exercised. The expected verdict comes from the library (judged by C01/C02).",
          "4/C04"),
  "C14": ("Written.tla trace specification (fresh salt, default set, current time, shape) over events projected from real writes with an independent digest recomputation; every write edge of the Store model",
          "Every add/update/init edge of the Store model checks the written line (five fields, format id and id of the default set, time within the operation, schema salt size, salt different from the previous record's, digest equal to the independent recomputation, aux preserved, file mode); 20 (thorough: 60) generated parameter sets covering scrypt cost/r/p/hmackey with and without r and p and argon2id time/memory/threads/length are loaded from YAML and written through add and update for 9 passwords each; every written record is projected to an event and the trace validated by TLC against Written.tla (no salt ever reused, default set, current time, url-safe padded base64); the directory is scanned for passwords and HMAC keys in five encodings.",
